@@ -146,4 +146,106 @@ example : (trace false 6 [48, 120, 49, 50, 32, 122, 122, 10, 65, 98, 51]).map re
 theorem nibble_xdigit_nat (c : UInt8) (h : isXDigit c = true) : ∃ n : Nat, n < 16 ∧ nibble c = (n : Int) :=
   nibble_xdigit c h
 
+/-! ## dump_format -/
+open Librfn.Spec.Hex (hexDigit pairOf row chunks format)
+
+theorem hexchar_hi : ∀ b : UInt8, hexchar (b >>> 4) = hexDigit (b.toNat / 16) :=
+  forall_u8 (fun b => hexchar (b >>> 4) = hexDigit (b.toNat / 16)) (by decide +kernel)
+
+theorem hexchar_lo : ∀ b : UInt8, hexchar (b &&& 0xf) = hexDigit (b.toNat % 16) :=
+  forall_u8 (fun b => hexchar (b &&& 0xf) = hexDigit (b.toNat % 16)) (by decide +kernel)
+
+/-- the inner loop writes the pairs of the next `n` bytes (fewer when the array ends) and leaves the rest -/
+theorem dumpRow_eq : ∀ (n : Nat) (bs : List UInt8), dumpRow n bs = ((bs.take n).flatMap pairOf, bs.drop n) := by
+  intro n
+  induction n with
+  | zero => intro bs; cases bs <;> rfl
+  | succ n ih =>
+    intro bs
+    cases bs with
+    | nil => rfl
+    | cons b bs =>
+      simp only [dumpRow, ih bs, List.take_succ_cons, List.flatMap_cons, List.drop_succ_cons, pairOf,
+        hexchar_hi, hexchar_lo, List.cons_append, List.nil_append]
+
+theorem chunks_nil : chunks [] = [] := rfl
+
+/-- the rows of a non-empty array: its first 16 bytes, then the rows of the rest -/
+theorem chunks_cons (bs : List UInt8) (h : bs ≠ []) : chunks bs = bs.take 16 :: chunks (bs.drop 16) := by
+  have hl : 0 < bs.length := List.length_pos_iff.mpr h
+  have hm : (bs.length + 15) / 16 = ((bs.drop 16).length + 15) / 16 + 1 := by
+    rw [List.length_drop]; omega
+  unfold chunks
+  rw [hm, List.range_succ_eq_map, List.map_cons, List.map_map]
+  congr 1
+  apply List.map_congr_left
+  intro k _
+  simp only [Function.comp, List.drop_drop]
+  congr 2
+  omega
+
+theorem format_nil : format [] = [] := rfl
+
+theorem format_cons (bs : List UInt8) (h : bs ≠ []) : format bs = row (bs.take 16) ++ format (bs.drop 16) := by
+  unfold format
+  rw [chunks_cons bs h, List.flatMap_cons]
+
+theorem dumpLoop_eq : ∀ (f : Nat) (bs : List UInt8), bs.length ≤ f → dumpLoop f bs = some (format bs) := by
+  intro f
+  induction f with
+  | zero =>
+    intro bs h
+    cases bs with
+    | nil => rfl
+    | cons b bs => simp at h
+  | succ f ih =>
+    intro bs h
+    cases bs with
+    | nil => rfl
+    | cons b bs =>
+      have hrest : ((b :: bs).drop 16).length ≤ f := by
+        rw [List.length_drop]; simp only [List.length_cons] at h ⊢; omega
+      rw [dumpLoop, dumpRow_eq]
+      dsimp only
+      rw [ih _ hrest, format_cons (b :: bs) (by simp), row, List.append_assoc]
+      rfl
+
+/-- **hex_dump_to_file writes, for every byte array, exactly the rows of 16 two-digit lower-case pairs, each
+    row ended by a newline** (`Spec.Hex.format`; the recursion budget of the model's outer loop suffices) -/
+theorem dump_format (bs : List UInt8) : dump bs = some (format bs) :=
+  dumpLoop_eq bs.length bs (Nat.le_refl _)
+
+/-- the specification's rows really are "16 per line": the rows joined give back the array, … -/
+theorem chunks_flatten : ∀ (n : Nat) (bs : List UInt8), bs.length ≤ n → (chunks bs).flatten = bs := by
+  intro n
+  induction n with
+  | zero => intro bs h; cases bs with
+    | nil => rfl
+    | cons b bs => simp at h
+  | succ n ih =>
+    intro bs h
+    cases bs with
+    | nil => rfl
+    | cons b bs =>
+      rw [chunks_cons _ (by simp), List.flatten_cons, ih _ (by rw [List.length_drop]; simp only [List.length_cons] at h ⊢; omega)]
+      exact List.take_append_drop 16 _
+
+/-- … there are `⌈n/16⌉` rows, every row holds between 1 and 16 bytes and every row but the last exactly 16 -/
+theorem chunks_shape (bs : List UInt8) :
+    (chunks bs).length = (bs.length + 15) / 16 ∧
+    ∀ k (h : k < (chunks bs).length), 1 ≤ ((chunks bs)[k]).length ∧ ((chunks bs)[k]).length ≤ 16 ∧
+      (k + 1 < (chunks bs).length → ((chunks bs)[k]).length = 16) := by
+  have hlen : (chunks bs).length = (bs.length + 15) / 16 := by simp [chunks]
+  refine ⟨hlen, ?_⟩
+  intro k h
+  have hk : k < (bs.length + 15) / 16 := hlen ▸ h
+  have e : (chunks bs)[k] = (bs.drop (16 * k)).take 16 := by simp [chunks]
+  rw [e, List.length_take, List.length_drop, hlen]
+  omega
+
+/-- non-vacuity: 18 bytes give a full row and a row of two -/
+example : dump [0, 1, 0xab, 0xff, 16, 17, 18, 19, 20, 21, 22, 23, 24, 25, 26, 27, 28, 29]
+    = some ([48,48,48,49,97,98,102,102,49,48,49,49,49,50,49,51,49,52,49,53,49,54,49,55,49,56,49,57,49,97,49,98,10,
+             49,99,49,100,10]) := by decide +kernel
+
 end Librfn.C18
